@@ -327,6 +327,18 @@ class Pair:
             h |= set(s.auth_handler._handler_table)
         return sorted(int(x) for x in h)
 
+    def wrong_direction_types(self):
+        """types that, by protocol direction (RFC 4253 §10, RFC 4252, GSSAPI userauth), are only ever sent *by* a
+        transport in the subject's role, never to it: whatever the tables say, the subject has no handler for them.
+        (ServiceRequestingTransport is a client-side class that registers SERVICE_ACCEPT per instance: not judged
+        in the server role.)"""
+        from paramiko.transport import ServiceRequestingTransport
+
+        s = self.subject
+        if s.server_mode and isinstance(s, ServiceRequestingTransport):
+            return []
+        return [6, 51, 52, 53, 60, 64, 65] if s.server_mode else [5, 50, 61, 63, 66]
+
     def barrier(self, limit=30):
         """Round trip through the subject's run loop (GLOBAL_REQUEST with want_reply).  Returns True when the
         answer arrived, False when the subject's loop ended instead."""
@@ -718,6 +730,34 @@ def send_gate_facts():
     return {"rechecks_under_lock": bool(rechecks), "clears_before_write": bool(clears), "detail": facts}
 
 
+def overflow_test_facts():
+    """From the AST of Packetizer.read_message: inside `if self.__need_rekey:` the test that raises "ignoring rekey
+    requests" compares which counters with which limits?  Returns [(counter attribute, limit attribute)] (names
+    without the class prefix) or None."""
+    import paramiko.packet as P
+
+    try:
+        tree = ast.parse(textwrap.dedent(inspect.getsource(P.Packetizer.read_message)))
+    except (OSError, SyntaxError):
+        return None
+
+    def attr(n):
+        return n.attr if isinstance(n, ast.Attribute) and isinstance(n.value, ast.Name) and n.value.id == "self" else None
+
+    pairs = []
+    for node in ast.walk(tree):
+        if isinstance(node, ast.If) and attr(node.test) is not None and attr(node.test).endswith("need_rekey"):
+            for inner in ast.walk(node):
+                if isinstance(inner, ast.If) and inner is not node and any(isinstance(x, ast.Raise) for x in inner.body):
+                    for c in ast.walk(inner.test):
+                        if isinstance(c, ast.Compare) and len(c.comparators) == 1:
+                            a, b = attr(c.left), attr(c.comparators[0])
+                            if a and b:
+                                pairs.append((a.split("__")[-1], b))
+            break
+    return pairs
+
+
 def lean_channel_table(sites, takes, handlers, gate):
     rows = ",\n".join('    ⟨"%s", %d, %s, %s⟩' % (s["func"], s["line"], "true" if s["under_lock"] else "false",
                                                   "true" if s["func"] in handlers else "false") for s in sites)
@@ -738,8 +778,12 @@ def lean_channel_table(sites, takes, handlers, gate):
         "def sendRechecksUnderLock : Bool := %s\n\n"
         "/-- Transport._send_kex_init: clear_to_send is cleared under the lock before KEXINIT is written -/\n"
         "def kexInitClearsBeforeWrite : Bool := %s\n\n"
+        "/-- Packetizer.read_message, branch `if need_rekey`: (counter, limit) of each comparison in the test that raises\n"
+        "\"Remote transport is ignoring rekey requests\" -/\n"
+        "def overflowTests : List (String × String) := [%s]\n\n"
         "end PV.Generated.C11\n" % (rows, hrows, "true" if gate["rechecks_under_lock"] else "false",
-                                      "true" if gate["clears_before_write"] else "false")
+                                      "true" if gate["clears_before_write"] else "false",
+                                      ", ".join('("%s", "%s")' % p for p in (gate.get("overflow_tests") or [])))
     )
 
 
@@ -749,6 +793,7 @@ def write_generated_c11(ctx):
     sites, takes = channel_lock_table()
     handlers = {f.__name__ for f in Transport._channel_handler_table.values()}
     gate = send_gate_facts()
+    gate["overflow_tests"] = overflow_test_facts()
     ctx.extra["send_gate_facts"] = gate
     ctx.write_generated("C11", lean_channel_table(sites, takes, handlers, gate))
     return sites, takes, handlers
